@@ -480,7 +480,15 @@ func TestVerif(t *testing.T) {
 			os.WriteFile(curPath, []byte(fmt.Sprintf("%d %d\n", idx, seed)), 0o644)
 		}
 		tape := simrt.NewTape(seed)
-		r := execute(t, prop, tier, tape, 1)
+		// isolation phase (one OS process per run): the code under test keeps state at package level,
+		// so nothing may be executed twice in this process - the first execution keeps its full log
+		// and is what gets reported
+		isolated := os.Getenv("VERIF_ISOLATED") != ""
+		logCap := 1
+		if isolated {
+			logCap = 4000
+		}
+		r := execute(t, prop, tier, tape, logCap)
 		if dd := os.Getenv("VERIF_DUMPLOG"); dd != "" {
 			// debugging aid for the determinism self-test: the full event log of every run
 			rr := execute(t, prop, tier, simrt.NewTape(seed), 100000)
@@ -534,6 +542,11 @@ func TestVerif(t *testing.T) {
 			reported[r.Viol.Sig] = true
 			vals := tape.Values()
 			sig := r.Viol.Sig
+			if isolated {
+				emit(resultLine{Type: "violation", Sig: sig, Seed: seed, Idx: idx, Tape: vals, Decisions: tape.Rec,
+					Log: r.Log.Lines, LogHash: r.Log.Hash(), OrigLen: len(vals), Msg: r.Viol.Msg})
+				continue
+			}
 			streams, mruns := simrt.Streams(tape.Rec), 0
 			if !strings.HasPrefix(sig, "harness/") && os.Getenv("VERIF_NOMIN") == "" {
 				streams, mruns = minimise(t, prop, tier, seed, tape.Rec, sig, 60*time.Second)
